@@ -1,0 +1,42 @@
+//go:build verif
+
+package immutable
+
+import "strings"
+
+// Hook for the verification harness (/verif, property C03). Compiled only with the `verif`
+// build tag. It exposes the start-up reader of a compact log so that the harness can observe,
+// in a crash image, what recovery will read from the log it finds there.
+
+// VerifCompactLog is the content of one compact log as readCompactLogFile returns it.
+type VerifCompactLog struct {
+	Name    string
+	IsOrder bool
+	Old     []string
+	New     []string
+}
+
+// VerifReadCompactLog reads one compact log file with the reader procCompactLog uses.
+// dirty reports that the reader classified the file as an incomplete log (ErrDirtyLog: it is
+// skipped by recovery); any other reader error is returned as err.
+func VerifReadCompactLog(path string) (log VerifCompactLog, dirty bool, err error) {
+	info := &CompactedFileInfo{}
+	if e := readCompactLogFile(path, info); e != nil {
+		if e == ErrDirtyLog {
+			return log, true, nil
+		}
+		return log, false, e
+	}
+	log.Name = strings.Clone(info.Name)
+	log.IsOrder = info.IsOrder
+	for _, s := range info.OldFile {
+		log.Old = append(log.Old, strings.Clone(s))
+	}
+	for _, s := range info.NewFile {
+		log.New = append(log.New, strings.Clone(s))
+	}
+	return log, false, nil
+}
+
+// VerifCompactLogDir is the name of the compact-log directory below the shard's data path.
+func VerifCompactLogDir() string { return compactLogDir }
